@@ -10,3 +10,28 @@ CLAIMS['C14'] = dict(
     note="Assumes A2 (float arithmetic treated as real arithmetic in the proof; the exhaustive stage runs real doubles), soundness of "
          "z3/cvc5 and of the pyvc interpreter; the try-block contract assumes masses and atom_type_masses have equal length.",
     technique='contract-based deductive verification (own VC generator from the Python AST, z3/cvc5) + exhaustive table enumeration')
+CLAIMS['C18'] = dict(
+    category='proof',
+    text="Spec functions for the UFF functional forms (Rappe et al. 1992, eqs 2-4, 6, 13, 16, 17 and the documented special cases) are "
+         "written as z3 terms; the real AST of guess_bond_order, bond_params, angle_params, dihedral_params and pair_coeffs is executed "
+         "symbolically with the parameter table as an arbitrary real-valued map and atom types as symbolic strings, and 'result == spec' "
+         "is discharged on every path (modularly: angle/dihedral against the contracts of bond_params/guess_bond_order). Reversal symmetry "
+         "and the end-atom dependency are lemmas over the spec functions. Finiteness, positivity, style and symmetry on the real 221-row "
+         "table are decided by exhaustive enumeration against an independent native implementation (pairs exhaustively; triples and "
+         "quadruples exhaustively in thorough, stratified in quick).",
+    note="Assumes A2 (reals for floats), log/sqrt/cos/sin uninterpreted with three identities, non-vanishing denominators (checked on the "
+         "real table by the enumeration), z3/cvc5 and pyvc soundness. The enumeration is labelled exhaustive/stratified, never proved.",
+    technique='contract-based deductive verification against spec functions (own VC generator, z3 nonlinear reals) + exhaustive table enumeration')
+CLAIMS['C10'] = dict(
+    category='proof',
+    text="Both loops of Atoms._delete_and_reindex_atom_index_array are cut at inductive invariants and its postcondition (rows removed iff "
+         "they mention a deleted index; survivors keep order; every surviving entry v becomes v minus the number of deleted indices below "
+         "v) is discharged for arrays of arbitrary size and width 2-4; Atoms.__delitem__ is verified modularly against that contract "
+         "(16 paths: each term kind present/absent): all five per-atom arrays are deleted with the same index list, surviving terms point "
+         "to the positions where their atoms now live, types and extra fields follow, tables untouched, the size invariant is "
+         "re-established; pop is verified against the contract of __delitem__. No bound on sizes. A bounded stage deletes every subset "
+         "of structures with <= 5 atoms on the real code and cross-checks the assumed numpy contracts.",
+    note="numpy primitives (np.delete monotone-bijection and rank form, np.subtract where/out, np.any) and sorted enter as assumed "
+         "contracts, differentially tested on all small arguments; A1 mathematical integers; A5 value semantics for arrays; requires: "
+         "distinct valid indices, term indices in range. Quantified VCs give no counter-models: refutations come from the bounded stage.",
+    technique='contract-based deductive verification with loop invariants (own VC generator, z3 E-matching) + bounded enumeration of deletion subsets')
